@@ -2,7 +2,7 @@
     harness fed to Go's path package and to caco3, and compare with what was
     observed. *)
 From Coq Require Import List NArith Bool String.
-From Verif Require Import Lib.Path Caco.Names Caco.FileSet Caco.NamesGen Gen.CacoConsts.
+From Verif Require Import Lib.Path Caco.Names Caco.Match Caco.FileSet Caco.NamesGenDefs Gen.CacoConsts.
 Import ListNotations.
 Local Open Scope N_scope.
 
@@ -41,7 +41,7 @@ Definition rule_names (k : rkind) (p a b : str) : option (str * list str * list 
 Inductive ccase :=
 | CClean (s out : str)
 | CPJoin (elems : list str) (out : str)
-| CMatch (pat s : str) (out err : bool)
+| CMatch (pat s : str) (out err fout ferr : bool)
 | CRel (p f out : str)
 | CAbs (p f out : str)
 | CSrc (dir : str) (elems : list str) (out : str)
@@ -53,9 +53,20 @@ Definition check_case (c : ccase) : bool :=
   match c with
   | CClean s out => str_eqb (clean s) out
   | CPJoin elems out => str_eqb (path_join elems) out
-  | CMatch pat s out err =>
-      if simple_patb pat then negb err && Bool.eqb (gmatch pat s) out
-      else true   (* outside the modelled fragment *)
+  | CMatch pat s out err fout ferr =>
+      (* path.Match and filepath.Match *)
+      match go_match pat s with
+      | MTrue => negb err && out
+      | MFalse => negb err && negb out
+      | MBad => err
+      | MFuel => false
+      end &&
+      match fp_match pat s with
+      | MTrue => negb ferr && fout
+      | MFalse => negb ferr && negb fout
+      | MBad => ferr
+      | MFuel => false
+      end
   | CRel p f out => str_eqb (make_rel_path p f) out
   | CAbs p f out => str_eqb (make_path p f) out
   | CSrc dir elems out => str_eqb (dir_file_path dir elems) out
@@ -65,8 +76,9 @@ Definition check_case (c : ccase) : bool :=
   | CFileSet src_base tree p r err name files =>
       match file_set gen_excl src_base tree p r with
       | FsOk n fs => (err =? 0) && str_eqb n name && strs_eqb fs files
-      | FsNoFiles _ => err =? 1
-      | FsListErr _ => err =? 2
+      | FsErr (SelNoFiles _) => err =? 1
+      | FsErr (SelListErr _) => err =? 2
+      | FsErr (SelGlobErr _) => err =? 3
       end
   | CRule k p a b err name deps outs =>
       match rule_names k p a b with
